@@ -9,6 +9,12 @@ E2 = "explicit-state breadth-first search over operation sequences on the real o
 E1 = "stateless model checking of the real code under a controlled cooperative scheduler: every interleaving of the atomic/lock/channel steps of a small multi-goroutine harness (iterative preemption bounding, happens-before state matching), linearizability oracle + vector-clock race detection on every execution"
 
 claimed = {
+ "C12": dict(engine="E1 sched", technique=E1, design="6 C12",
+   text="Stateless model checking of the real mapz/safekv.go + iter.go (sync.RWMutex redirected to a scheduler-owned shim, every access to the entries field and to the map content probed): ALL schedules, without preemption bound, of every unordered pair of 18 method instances (Get, Has, Contains, Len, Set x2, SetNx, SetX, Delete x2, Keys, Values, Range, All, GetWithMap, GetWithLock, Clear, Map) as two goroutines from start states {} and {a:1}, plus eight 3-goroutine mixes; callbacks pause while the lock is held. Every execution: vector-clock data-race detection (a race is reported from the clocks in whichever schedule is explored, both hiding and exposing orders are explored), linearizability to a plain map in which every call incl. Keys/Values/Range/All/GetWithMap/Map is one atomic step.",
+   note="Trusted: shim RWMutex (no writer preference: superset of Go's behaviours), instrumenter. Outside: >3 goroutines, keys beyond {a,b}; Go-runtime-internal map state is seen only through the probes."),
+ "C19": dict(engine="E1 sched", technique=E1, design="6 C19",
+   text="Stateless model checking of the real goz/goz.go (WaitGroup, the token channel and both go statements owned by the scheduler): limits 1,2,3 and 0,-1 (-> 3); every assignment of {return, stay inside, panic, stay then panic} to 1-2 submitted functions, covering sets for limit+1 and limit+2 functions, handler set / nil, followed by a second batch of limit+1 functions and a second Wait; all schedules with <= 2 preemptions (3 thorough, unbounded where the space closes). Oracles: functions inside their body never exceed the limit, every function completed exactly once when Wait returns, handler receives exactly the panic values, no escaped panic, no deadlock (a leaked token blocks the second batch), and over all schedules of the second batch `limit` concurrent functions are reached.",
+   note="Trusted: shim WaitGroup / buffered channel semantics, instrumenter (refuses select/range on instrumented channels). Outside: Wait(timeout), panicking handlers, more than 4 functions per batch, preemption bound (stated per scenario in the evidence)."),
  "C02": dict(engine="E2 space", technique=E2, design="6 C02",
    text="Explicit-state BFS to the fix-point on the real SkipList (start states NewSkipList(), the zero value, zero value after Clear()) and on SkipListWithCmp under every total order of the keys (6 orders quick, all 24 thorough): keys {1,2,3} (thorough {1..4}), values {0,1}, ops Set/SetNx (with the tower height as an enumerated answer of the private random source: heights 1,2,3 and 'capped'), SetX, Remove, Clear, node SetValue; plus ladder systems that grow the top level to 32 and shrink it back. Every transition compared with a sorted-map model, every state with Len, Head, Get/GetNode 0..5, Keys, Values, All, Range with every early stop, RangeWithStart for every start, RangeWithRange for all 36 pairs and structural invariants of the towers.",
    note="Trusted: reflective canonical dump; replacement of the private *rand.Rand by a scripted source (start-up self-test checks the menu yields distinct heights). Outside: more than 4 distinct keys."),
